@@ -439,7 +439,8 @@ pub fn run(ctx: &mut Ctx) {
     ctx.cases("truncations", n, |ctx, _case, rng| {
         let base = base_message(rng, &key_spec);
         let fix_len = rng.bool();
-        for cut in 0..base.len() {
+        let step = if ctx.profile == "miri" { 9 } else { 1 };
+        for cut in (0..base.len()).step_by(step) {
             let mut b = base[..cut].to_vec();
             if fix_len && b.len() >= 20 {
                 let l = (b.len() - 20) as u16;
